@@ -317,7 +317,8 @@ fn run_stream(ctx: &mut Ctx, cfg: &ReqCfg, body: &[u8], stream: &[u8], close_aft
     } else {
         AwaitPolicy::GiveUpAtOnce
     };
-    let policy = if one_shot { Policy::canonical(await_policy) } else { Policy::draw(ctx, await_policy) };
+    let mut policy = if one_shot { Policy::canonical(await_policy) } else { Policy::draw(ctx, await_policy) };
+    policy.poll_past_decision = ctx.chance(1, 3);
     set_observed(true);
     let ex = Exchange { prop: "C12", body, policy, server: ServerPlan { msgs: vec![], close_after }, fixed_stream: Some(FixedStream { stream, consumed: 0, visible: 0, arrivals }) };
     let mut obs = ex.run(ctx, start)?;
